@@ -54,6 +54,26 @@ def tuple_switch_decider(an, tuple_local, assignment, zero_test=None, zero_value
     return decide
 
 
+def origin_decider(an, role_of, assignment, zero_test=None, zero_value=None):
+    """restrict the arms of every switch on an Option whose value originates (field-sensitively: through a tuple built for
+    a `match (a, b)`, through moves) from a value with a role: role_of(set of origins) -> role name or None;
+    assignment: {role: 'Some' | 'None'}.  Works for `match (a, b) {..}`, nested matches and let-else chains alike."""
+    cache = {}
+    def decide(blk):
+        t = blk.term
+        on = t.j.get('on')
+        if on and t.j.get('adt') == 'std::option::Option':
+            if blk.idx not in cache:
+                cache[blk.idx] = role_of(sources(an, Operand({'c': on})))
+            role = cache[blk.idx]
+            if role in assignment:
+                return [tgt for lab, tgt in t.switch_arms() if lab == assignment[role]]
+        if zero_test is not None and zero_value is not None and zero_test(blk):
+            return [tgt for lab, tgt in t.switch_arms() if lab == ('true' if zero_value else 'false')]
+        return None
+    return decide
+
+
 def is_zero_test(an, blk):
     t = blk.term
     if t.kind != 'switch' or t.j.get('dty') != 'bool':
@@ -120,6 +140,12 @@ def build_runtime_check(ctx, r, rule):
                 src = sources(ban, t.discr)
                 call = {s[1] for s in src if s[0] == 'call'}
                 flds = {s[1] for s in src if s[0] == 'field'}
+                # `[wait, create, recycle].iter().any(Option::is_some)`: the same disjunction written with an iterator
+                dsrc = sources(ban, t.discr, deep=True)
+                if any(s[0] == 'call' and s[1].endswith('::any') and 'Iterator' in s[1] for s in dsrc) and not any(s[0] == 'call' and s[1].split('::')[-1] in ('all', 'filter', 'skip', 'take', 'step_by', 'rev') for s in dsrc) \
+                        and any(s[0] == 'const' and strip_generics(str(s[1])) == 'std::option::Option::is_some' for s in dsrc):
+                    call = call | {'std::option::Option::is_some'}
+                    flds = flds | {s[1] for s in dsrc if s[0] == 'field'}
                 # the predicate call is terminal for the origin analysis: look at what it was applied to
                 for s in list(src):
                     if s[0] == 'call' and s[1] in ('std::option::Option::is_some', 'std::option::Option::is_none'):
@@ -211,30 +237,27 @@ def run(ctx):
         raise Undecided('apply_timeout body not found')
     ctx.saw(at)
     aan = prog.an(at)
-    tup = None
-    for blk in at.blocks:
-        for s in blk.stmts:
-            if s.kind == 'assign' and s.rv.kind == 'agg' and s.rv.j['ak'] == 'tuple' and len(s.rv.ops) == 2 and s.place.is_local():
-                o0 = sources(aan, s.rv.ops[0]); o1 = sources(aan, s.rv.ops[1])
-                n0 = {x[1] for x in o0 if x[0] == 'upvar'}; n1 = {x[1] for x in o1 if x[0] == 'upvar'}
-                if n0 and n1:
-                    tup = (s.place.local, sorted(n0)[0], sorted(n1)[0])
-    if tup is None:
-        ctx.undecide('R10.2', 'apply_timeout: (runtime, duration) match not found')
+    # which captured variable is which is told by its type, not by its name
+    rt_names = at.upvars_where(lambda ty: ty.startswith('std::option::Option<') and ty.endswith('Runtime>'))
+    du_names = at.upvars_of_type('std::option::Option<std::time::Duration>')
+    fu_names = at.upvars_where(lambda ty: ty.startswith('impl '))
+    tt_names = at.upvars_where(lambda ty: ty.endswith('::TimeoutType'))
+    def at_role(src):
+        ups = {x[1].split('.')[0] for x in src if x[0] == 'upvar'}
+        if ups and ups <= rt_names:
+            return 'runtime'
+        if ups and ups <= du_names:
+            return 'duration'
+        return None
+    n_dec = len([blk for blk in at.blocks if blk.term.kind == 'switch' and blk.term.j.get('adt') == 'std::option::Option' and 'on' in blk.term.j and
+                 at_role(sources(aan, Operand({'c': blk.term.j['on']}))) is not None])
+    if len(rt_names) != 1 or len(du_names) != 1 or n_dec < 2:
+        ctx.undecide('R10.2', 'apply_timeout: the decisions on (runtime, duration) were not found (runtime %s, duration %s, switches on them %d)' % (sorted(rt_names), sorted(du_names), n_dec))
     else:
-        tl, a0, a1 = tup
-        # which element is which is told by the captured variable's type, not by its name
-        rt_names = at.upvars_where(lambda ty: ty.startswith('std::option::Option<') and ty.endswith('Runtime>'))
-        du_names = at.upvars_of_type('std::option::Option<std::time::Duration>')
-        fu_names = at.upvars_where(lambda ty: ty.startswith('impl '))
-        tt_names = at.upvars_where(lambda ty: ty.endswith('::TimeoutType'))
-        if not ((a0.split('.')[0] in rt_names and a1.split('.')[0] in du_names) or (a1.split('.')[0] in rt_names and a0.split('.')[0] in du_names)):
-            raise Undecided('apply_timeout: the matched pair is not (runtime, duration): %s, %s' % (a0, a1))
-        idx = {'runtime': '0' if a0.split('.')[0] in rt_names else '1', 'duration': '0' if a0.split('.')[0] in du_names else '1'}
         table = {}
         for rt in ('None', 'Some'):
             for du in ('None', 'Some'):
-                blocks = explore(aan, tuple_switch_decider(aan, tl, {idx['runtime']: rt, idx['duration']: du}))
+                blocks = explore(aan, origin_decider(aan, at_role, {'runtime': rt, 'duration': du}))
                 table[(rt, du)] = events_in(aan, blocks, at)
         exp = {
             ('None', 'None'): ({'await-future'}, {'Runtime::timeout', 'err:NoRuntimeSpecified', 'err:Timeout'}),
@@ -369,26 +392,28 @@ def run(ctx):
     # matches on (the per-call timeout, the configured runtime); the timeout is the captured Option<Duration>, whatever its name
     cands = [u.TIMEOUT_GET] + [prog.bodies[blk.term.rcallee] for blk in u.TIMEOUT_GET.blocks if blk.term.kind == 'call' and not blk.cleanup and blk.term.rcallee in prog.bodies and
                                prog.bodies[blk.term.rcallee].is_coroutine and blk.term.rcallee.startswith('deadpool::unmanaged')]
-    tg = u.TIMEOUT_GET; tup = None
+    tg = u.TIMEOUT_GET; u_role = None
+    def make_role(cand):
+        tnames = cand.upvars_of_type('std::option::Option<std::time::Duration>')
+        def role(src):
+            if any(x[0] == 'upvar' and x[1].split('.')[0] in tnames for x in src) and not any(x[0] == 'field' and x[1].endswith('PoolConfig.runtime') for x in src):
+                return 'timeout'
+            if any(x[0] == 'field' and x[1].endswith('PoolConfig.runtime') for x in src) and not any(x[0] == 'upvar' and x[1].split('.')[0] in tnames for x in src):
+                return 'runtime'
+            return None
+        return role
     for cand in cands:
         can_ = prog.an(cand)
-        tnames = cand.upvars_of_type('std::option::Option<std::time::Duration>')
-        is_to = lambda o: any(x[0] == 'upvar' and x[1].split('.')[0] in tnames for x in o)
-        is_rt = lambda o: any(x[0] == 'field' and x[1].endswith('PoolConfig.runtime') for x in o)
-        for blk in cand.blocks:
-            for s in blk.stmts:
-                if s.kind == 'assign' and s.rv.kind == 'agg' and s.rv.j['ak'] == 'tuple' and len(s.rv.ops) == 2 and s.place.is_local():
-                    o0 = sources(can_, s.rv.ops[0]); o1 = sources(can_, s.rv.ops[1])
-                    if is_to(o0) and is_rt(o1):
-                        tg, tup = cand, (s.place.local, '0', '1')
-                    elif is_to(o1) and is_rt(o0):
-                        tg, tup = cand, (s.place.local, '1', '0')
+        role = make_role(cand)
+        seen_roles = {role(sources(can_, Operand({'c': blk.term.j['on']}))) for blk in cand.blocks
+                      if blk.term.kind == 'switch' and blk.term.j.get('adt') == 'std::option::Option' and 'on' in blk.term.j}
+        if {'timeout', 'runtime'} <= seen_roles:
+            tg, u_role = cand, role
     tan = prog.an(tg)
     ctx.saw(tg)
-    if tup is None:
-        ctx.undecide('R10.7', 'unmanaged timeout_get: (timeout, runtime) match not found')
+    if u_role is None:
+        ctx.undecide('R10.7', 'unmanaged timeout_get: the decisions on (timeout, runtime) were not found')
     else:
-        tl, it, ir = tup
         zt = lambda blk: is_zero_test(tan, blk)
         nz = len([1 for blk in tg.blocks if zt(blk)])
         ctx.ob('R10.7', 'unmanaged timeout_get has one zero-duration test', nz == 1, ctx.where(tg), '%d tests' % nz, construct='u-timeout:zero-test')
@@ -403,7 +428,7 @@ def run(ctx):
         # only the part of the body up to the pop matters: cut at the queue pop
         pops = [x.idx for x, m in u.queue_calls(tg) if m == 'pop']
         for (tv, rv_, zero), (must, mustnot) in rows.items():
-            dec = tuple_switch_decider(tan, tl, {it: tv, ir: rv_}, zt, zero)
+            dec = origin_decider(tan, u_role, {'timeout': tv, 'runtime': rv_}, zt, zero)
             def dec2(blk, dec=dec):
                 return dec(blk)
             blocks = explore(tan, dec2)
